@@ -61,9 +61,13 @@ func (w *verifC14World) step(kind int) {
 	}
 }
 
+// (stated before the queries: it is about the history, not about the answers)
+func (w *verifC14World) witnessDropped() {
+	w.reach(3, "history-empty-ephemeral-key-removed-by-unregister-of-a-non-producer", w.sawEphemeralDropped)
+}
+
 func (w *verifC14World) witnesses() {
 	w.reach(3, "history-ephemeral-key-removed-by-last-unregister", w.sawEphemeralRemoved)
-	w.reach(3, "history-empty-ephemeral-key-removed-by-unregister-of-a-non-producer", w.sawEphemeralDropped)
 	w.reach(2, "history-disconnect-ran-exit-path", w.sawDisconnect)
 	w.reach(2, "history-fatal-error-ended-connection", w.sawFatal)
 	both := true
@@ -89,6 +93,7 @@ func verifC14Histories(h int) {
 	for i := 0; i < n; i++ {
 		w.step(verifrt.Choice("op", verifC14Kinds))
 	}
+	w.witnessDropped()
 	w.checkKeys()
 	w.checkTimed()
 	w.witnesses()
